@@ -27,6 +27,7 @@ type Loaded struct {
 	RepoDir      string
 	Overlay      map[string][]byte
 	buildMu      sync.Mutex
+	builtPkgs    sync.Map
 }
 
 // BuildOverlay maps every file under harnessDir to the same relative path under repoDir.
@@ -83,7 +84,7 @@ func Load(repoDir, harnessDir string, patterns []string, tags string) (*Loaded, 
 		intrCache: map[*ssa.Function]*Intrinsic{}, OpenFindings: map[string]bool{}, RepoDir: repoDir, Overlay: ov}
 	for _, sp := range spkgs {
 		if sp != nil {
-			sp.Build()
+			L.buildPackage(sp)
 		}
 	}
 	for _, sp := range prog.AllPackages() {
@@ -94,22 +95,30 @@ func Load(repoDir, harnessDir string, patterns []string, tags string) (*Loaded, 
 
 func (L *Loaded) Package(path string) *ssa.Package { return L.byPath[path] }
 
-// ensureBuilt builds the function's package lazily.
+// ensureBuilt builds the function's package (once, atomically w.r.t. other workers) before its body is read.
 func (L *Loaded) ensureBuilt(fn *ssa.Function) {
-	if fn.Blocks != nil {
+	p := fn.Package()
+	if p == nil {
+		if o := fn.Origin(); o != nil {
+			p = o.Package()
+		}
+	}
+	if p == nil {
 		return
 	}
-	if fn.Pkg != nil {
-		fn.Pkg.Build()
+	L.buildPackage(p)
+}
+
+func (L *Loaded) buildPackage(p *ssa.Package) {
+	if _, ok := L.builtPkgs.Load(p); ok {
 		return
 	}
-	// method of an instantiated/external type: build the package of the origin / receiver
-	if o := fn.Origin(); o != nil && o.Pkg != nil {
-		o.Pkg.Build()
-	}
-	if p := fn.Package(); p != nil {
+	L.buildMu.Lock()
+	if _, ok := L.builtPkgs.Load(p); !ok {
 		p.Build()
+		L.builtPkgs.Store(p, true)
 	}
+	L.buildMu.Unlock()
 }
 
 var deniedPkgs = []string{"os", "os/exec", "os/signal", "net", "net/http", "syscall", "math/rand", "math/rand/v2", "crypto/rand",
@@ -131,11 +140,11 @@ func (L *Loaded) denied(fn *ssa.Function) string {
 
 // packages whose functions are ignored (events, logging, formatting, telemetry).
 var ignoredPkgs = map[string]bool{
-	"cosmossdk.io/log":                             true,
-	"log":                                          true,
-	"github.com/rs/zerolog":                        true,
-	"github.com/cosmos/cosmos-sdk/telemetry":       true,
-	"github.com/hashicorp/go-metrics":              true,
+	"cosmossdk.io/log":                               true,
+	"log":                                            true,
+	"github.com/rs/zerolog":                          true,
+	"github.com/cosmos/cosmos-sdk/telemetry":         true,
+	"github.com/hashicorp/go-metrics":                true,
 	"github.com/prometheus/client_golang/prometheus": true,
 }
 
@@ -159,4 +168,20 @@ var skipInitPkgs = map[string]bool{
 
 func (it *Interp) initLenient(pkg *ssa.Package) bool {
 	return !strings.HasPrefix(pkg.Pkg.Path(), ModPath) || strings.HasSuffix(pkg.Pkg.Path(), "/vsupport")
+}
+
+// packages whose functions return opaque values when called from a package initialiser
+// (codec/amino/interface registries built at init time are never consulted by the models).
+var initOpaquePkgs = map[string]bool{
+	"github.com/cosmos/cosmos-sdk/codec":               true,
+	"github.com/cosmos/cosmos-sdk/codec/types":         true,
+	"github.com/cosmos/cosmos-sdk/codec/legacy":        true,
+	"github.com/cosmos/cosmos-sdk/crypto/codec":        true,
+	"github.com/cosmos/cosmos-sdk/codec/address":       true,
+	"github.com/cosmos/cosmos-sdk/types/msgservice":    true,
+	"github.com/cosmos/gogoproto/proto":                true,
+	"github.com/cosmos/gogoproto/jsonpb":               true,
+	"google.golang.org/protobuf/reflect/protoregistry": true,
+	"google.golang.org/protobuf/runtime/protoimpl":     true,
+	"regexp": true,
 }
